@@ -31,6 +31,8 @@ prop('C02', technique='contract-based deductive verification: two-implementation
                  'the real optimize() and must behave identically and stay assemblable; markers and labels survive',
      assumptions=['windows are checked after 0-2 unrelated instructions; operands outside -2..2 symbolic, -2..2 enumerated'],
      not_covered=['CONST substitution by tree cloning', 'read/store pair elimination and jump rules only for marker preservation, not semantics',
+                  'the push/push/div window on two INTEGER or LONG literals (binary64 quotient): not decidable with uninterpreted float '
+                  'division (false alarm) nor, within 15 minutes per case, with bit-precise division - contract retired',
                   'static array bounds vs run-time bounds'])
 prop('C03', technique='contract-based deductive verification of typing contracts (instructions, expression generators, device protocols)',
      explanation='every instruction/expression contract: typed operands in, a cell of the static result type out, or a language-level trap; '
